@@ -90,9 +90,21 @@ def run_models(ctx, quick):
     cases = [c for c in cases if not c["cls"].endswith(("JSONRPCError", ".JSONRPCMessage"))]
     for cls, w in special_cases():
         cases.append({"cls": cls, "wire": tag(w)})
-    rp = worker(False, {"op": "validate", "cases": cases})["results"]
-    rf = worker(True, {"op": "validate", "cases": cases})["results"]
     recs = []
+    # every object is validated in two processes per back end: in class order and in reverse class
+    # order (what an earlier use of another class left behind must not matter), each time twice
+    # (after every typed view of the first pass was edited in place)
+    runs = []
+    for rev in (False, True):
+        rp = worker(False, {"op": "validate", "cases": cases, "two_pass": True, "reverse": rev})["results"]
+        rf = worker(True, {"op": "validate", "cases": cases, "two_pass": True, "reverse": rev})["results"]
+        runs.append((rp, rf))
+    (rp, rf), (rp2, rf2) = runs
+    for k in range(len(cases)):
+        for x, y in ((rp[k], rp2[k]), (rf[k], rf2[k])):
+            if x["ok"] != y["ok"] or x["dump"] != y["dump"] or x["typed"] != y["typed"]:
+                x["stable"] = False
+            x["stable"] = x["stable"] and y["stable"]
     for c, a, b in zip(cases, rp, rf):
         w = untag(c["wire"])
         declared = {f[1] for f in disc["classes"].get(c["cls"], [])}
@@ -100,8 +112,8 @@ def run_models(ctx, quick):
         db = untag(b["dump"]) if b["ok"] else None
         recs.append({"kind": "model", "cls": c["cls"].split(".")[-1], "okP": bool(a["ok"]), "okF": bool(b["ok"]),
                      "typedEq": a["typed"] == b["typed"], "dumpEq": a["dump"] == b["dump"],
-                     "losslessP": bool(a["ok"] and lossless(w, da) and added_ok(w, da, declared)),
-                     "losslessF": bool(b["ok"] and lossless(w, db) and added_ok(w, db, declared)),
+                     "losslessP": bool(a["ok"] and a["stable"] and lossless(w, da) and added_ok(w, da, declared)),
+                     "losslessF": bool(b["ok"] and b["stable"] and lossless(w, db) and added_ok(w, db, declared)),
                      "bothReject": (not a["ok"]) and (not b["ok"]), "wire": c["wire"], "full": c["cls"], "excP": a["exc"][:120], "excF": b["exc"][:120]})
     nclasses = len({c["cls"] for c in cases})
     return recs, nclasses, disc
@@ -161,6 +173,31 @@ def run_union_core():
             recs.append({"kind": "id", "ty": m[1], "v": m[2], "obsP": _obs_id(a, m[3], m[2][1]), "obsF": _obs_id(b, m[3], m[2][1]), "cls": c["cls"].split(".")[-1]})
         else:
             recs.append({"kind": "content", "ty": m[1], "type": m[2], "obsP": _obs_variant(a, True), "obsF": _obs_variant(b, True), "cls": c["cls"].split(".")[-1]})
+    return recs
+
+
+def run_parse():
+    """parse_message on spec-valid JSON-RPC envelopes: same class, same dump in both back ends"""
+    results = [{}, {"a": None}, [], [1, None], "", "s", 0, 5, False, True, 1.5, {"nested": {"l": []}}]
+    err = {"code": -32000, "message": "m"}
+    bodies = []
+    for i in (7, 0, "abc", ""):
+        for res in results:
+            bodies.append({"jsonrpc": "2.0", "id": i, "result": res})
+        bodies.append({"jsonrpc": "2.0", "id": i, "error": err})
+        bodies.append({"jsonrpc": "2.0", "id": i, "error": dict(err, data=[])})
+        bodies.append({"jsonrpc": "2.0", "id": i, "method": "m"})
+        bodies.append({"jsonrpc": "2.0", "id": i, "method": "m", "params": {}})
+        bodies.append({"jsonrpc": "2.0", "id": i, "method": "m", "params": {"_meta": {}, "l": []}})
+    bodies.append({"jsonrpc": "2.0", "method": "n"})
+    bodies.append({"jsonrpc": "2.0", "method": "n", "params": {}})
+    req = {"op": "parse", "cases": [{"wire": tag(b)} for b in bodies]}
+    rp = worker(False, req)["results"]
+    rf = worker(True, req)["results"]
+    recs = []
+    for b, a, f in zip(bodies, rp, rf):
+        recs.append({"kind": "model", "cls": "parse_message", "okP": bool(a["ok"]), "okF": bool(f["ok"]), "typedEq": a["cls"] == f["cls"], "dumpEq": a["dump"] == f["dump"],
+                     "losslessP": bool(a["ok"]), "losslessF": bool(f["ok"]), "bothReject": False, "wire": tag(b), "full": "parse_message", "excP": a["exc"] + " " + a["cls"], "excF": f["exc"] + " " + f["cls"]})
     return recs
 
 
@@ -244,7 +281,7 @@ def check_c09(ctx):
         raise Machinery("%d of %d generated objects are rejected by both back ends" % (both, len(recs)))
     core = run_union_core()
     hooks = run_hooks()
-    allr = recs + core + hooks
+    allr = recs + run_parse() + core + hooks
     judge(ctx, allr, {"BothAccept", "SameVariant", "SameDump", "IdKeepsType", "ContentKeepsVariant", "InvariantsBothOrNeither"}, "c09")
     ctx.cov["distinct_nontrivial"] = len({json.dumps(r, sort_keys=True, default=str) for r in allr})
     ctx.cov["samples"] = [{k: v for k, v in recs[0].items() if k != "wire"}, core[6], hooks[0]]
@@ -274,7 +311,11 @@ EMITTERS = {
     "create_request": "request", "create_request_token": "request", "create_notification": "notification", "create_response": "result", "create_error_response": "error",
     "JSONRPCRequest": "request", "JSONRPCResponse": "result", "JSONRPCError": "error", "JSONRPCNotification": "notification",
     "legacy.create_request": "request", "legacy.create_notification": "notification", "legacy.create_response": "result", "legacy.create_error_response": "error",
+    # messages written by the sending helpers (captured at the write stream) and built by the batch processor
+    "send_message": "request", "send_tools_call": "request", "send_cancelled_notification": "notification", "send_progress_notification": "notification",
+    "batch.item_error:plain": "error", "batch.item_error:intcode": "error", "batch.item_error:strcode": "error", "batch.item_error:nullcode": "error", "batch.item_error:floatcode": "error",
 }
+HELPER_EMITTERS = {"send_message", "send_tools_call", "send_cancelled_notification", "send_progress_notification"}
 PAYLOADS = [None, {}, {"a": 1}, {"nil": None}, {"l": [None, 1, {"x": None}]}, {"deep": {"d": {"e": [None]}}, "big": 2**63 + 1, "f": 1.5, "neg0": -0.0},
             {"s": "line\nbreak \r  \U0001F600 \x00", "": "empty key", "ключ": "é"}, {"_meta": {"progressToken": "p"}, "cursor": "c"}, {"e": [], "o": {}}]
 IDVALS = [0, 1, -1, 2**63, 2**64 - 1, "", "abc", "123", "007", "uuid-1234"]
@@ -298,6 +339,8 @@ def check_c02(ctx):
             for pl in PAYLOADS:
                 if EMITTERS[em] == "result" and pl is None and not em.startswith(("create", "legacy")):
                     continue
+                if (em.startswith("batch.") or em in ("send_cancelled_notification", "send_progress_notification")) and pl is not PAYLOADS[0]:
+                    continue          # these build their own payload: one case per id
                 cases.append({"emitter": em, "id": tag(idv), "payload": tag(pl)})
     for _ in range(100 if quick else 3000):
         pl = {"k%d" % i: rng.choice([None, 1, "s\n", [None], {"n": None}, 2**rng.randrange(0, 64)]) for i in range(rng.randrange(0, 5))}
@@ -315,11 +358,25 @@ def check_c02(ctx):
                 d = untag(f["tree"])
                 pd = untag(f["parsed"]["tree"]) if f["parsed"]["env"].get("obj") else None
                 want_id = want != "notification"
-                id_eq = (not want_id) or (isinstance(pd, dict) and "id" in pd and pd["id"] == idv and type(pd["id"]) is type(idv) and isinstance(d, dict) and d.get("id") == idv and type(d.get("id")) is type(idv))
+                if c["emitter"] == "send_tools_call" or (c["emitter"] == "send_message" and not idv):
+                    # the helper generates the id: any non-empty string, the same before and after parsing
+                    want_id = False
+                    gen_ok = isinstance(d, dict) and isinstance(d.get("id"), str) and d["id"] != "" and isinstance(pd, dict) and pd.get("id") == d["id"]
+                else:
+                    gen_ok = True
+                id_eq = gen_ok and (not want_id) or (isinstance(pd, dict) and "id" in pd and pd["id"] == idv and type(pd["id"]) is type(idv) and isinstance(d, dict) and d.get("id") == idv and type(d.get("id")) is type(idv))
                 pl = untag(c["payload"])
                 if c["emitter"] == "create_request_token":
                     pl = dict(pl or {})
                     pl["_meta"] = dict(pl.get("_meta") or {}, progressToken="tok-1")
+                elif c["emitter"] == "send_tools_call":
+                    pl = {"name": "tool-x", "arguments": pl or {}}
+                elif c["emitter"] == "send_cancelled_notification":
+                    pl = {"requestId": idv, "reason": "why"}
+                elif c["emitter"] == "send_progress_notification":
+                    pl = {"progressToken": idv, "progress": 0.5, "total": 1.0, "message": "half"}
+                elif c["emitter"].startswith("batch.item_error"):
+                    pl = None
                 if want == "result":
                     got_pl = d.get("result") if isinstance(d, dict) else None
                     if pl is None or (pl == {} and c["emitter"].startswith(("create", "legacy"))):
